@@ -101,7 +101,7 @@ def check(case):
 
 
 def strategy():
-    return gen_maps.pipeline_case(kinds=KINDS, weight_default=4)
+    return gen_maps.pipeline_case(kinds=KINDS, weight_default=4, flank_repeat=1)
 
 
 def subchecks(tier):
